@@ -32,9 +32,11 @@ rc_w, o = sh("timeout 300 /venv/bin/python demo.py", cwd=wt, env=env)
 meta["ran"]["demo_with_change_exit"] = rc_w
 meta["ran"]["demo_with_change_tail"] = o[-600:]
 # without the change
-sh("git stash", cwd=wt)
+# (no `git stash`: the stash is shared by all worktrees of /repo)
+changed = [l.split()[-1] for l in sh("git diff --name-only", cwd=wt)[1].splitlines() if l.strip()]
+sh("git checkout -- " + " ".join(changed), cwd=wt)
 rc_o, o = sh("timeout 300 /venv/bin/python demo.py", cwd=wt, env=env)
-sh("git stash pop", cwd=wt)
+sh(f"git apply {out}/patch.diff", cwd=wt)
 meta["ran"]["demo_without_change_exit"] = rc_o
 meta["confirmed"] = ("67 passed" in meta["ran"]["tests_with_change"]) and rc_w == 1 and rc_o == 0
 # against /repo
